@@ -157,6 +157,11 @@ func isPSIComplete(ps []*Packet) bool {
 	// Pointer filler bytes
 	i.Skip(int(b))
 
+	// Payload that stops at or before the end of the pointer filler bytes hasn't reached any section yet
+	if !i.HasBytesLeft() {
+		return false
+	}
+
 	for i.HasBytesLeft() {
 
 		// Get PSI table ID
